@@ -62,6 +62,23 @@ def run(ctx):
                "keys.is_empty() => db.values(id) else db.values_by_keys(id, keys)" if ok else
                "the choice between all values and values_by_keys no longer follows `keys.is_empty()`", b.where)
 
+    # R09c: removing a key deletes exactly that pair and keeps the order of the others: the element removed is the one
+    # found by key (index from `find`), and nothing is swapped or re-ordered
+    b = ctx.anchor("R09c", KV + "remove_value")
+    if b:
+        fnd = [(i, t) for i, t in cfg.calls(b) if (cfg.callee_decl(t) or "").endswith("Iterator::find")]
+        rem = [(i, t) for i, t in cfg.calls(b) if common.norm(cfg.callee(t) or "").endswith("::remove") and "collections::vec::" in (cfg.callee(t) or "")]
+        swaps = [i for i, t in cfg.calls(b) if common.norm(cfg.callee(t) or "").endswith(("::swap", "::swap_remove"))]
+        ok = bool(fnd and rem) and not swaps
+        if ok:
+            der = cfg.derived_locals(b, [fnd[0][1]["d"][0]])
+            o = cfg.op_origin(b, rem[0][1]["a"][2]) if len(rem[0][1]["a"]) > 2 else None
+            ok = o is not None and o[0] in der and cfg.find_path(b, [0], [rem[0][0]], avoid=[fnd[0][0]]) is None
+        ctx.ob("R09c", "DbKeyValues::remove_value", ok,
+               "removes the pair at the position found by key; no swap / re-ordering" if ok else
+               "remove_value no longer removes exactly the found pair in place (swap calls: %d): the order of the remaining "
+               "properties changes" % len(swaps), b.where)
+
     b = ctx.anchor("R09b", KV + "insert_or_replace")
     if b:
         rep = [i for i, t in cfg.calls(b) if common.norm(cfg.callee(t) or "").endswith("::replace") and "vec::" in (cfg.callee(t) or "")]
